@@ -1,8 +1,7 @@
 """C33 Value binary encoding round-trips and matches the engine layout.
 
 C tie : the real `HailType._to_encoding` / `_from_encoding` (`_convert_to_encoding`, `_convert_from_encoding`, ByteWriter /
-        ByteReader) against `Model/ValueEnc.lean`: the bytes written (must be EQUAL), the value read back, the value the model
-        reads from the real bytes.
+        ByteReader) against `Model/ValueEnc.lean`: the bytes written (must be EQUAL) and the value read back.
 T tie : `EType.fromPythonTypeEncoding`'s case table is re-extracted from EType.scala on every run
         (`harness/extract/scala_etype.py` -> `Generated/PyEType.lean`; `C33.layout_matches_table` compares it with the table the
         model was written to).
@@ -338,8 +337,8 @@ class C33(Prop):
     search_budget = {'quick': 3000, 'thorough': 40000}
     rule = ('case = (type of depth <= 4, type-directed non-missing value with 15% missing inside, NaN/±inf/-0.0/denormals, boundary ints, '
             'all call shapes, loci, C- and F-ordered n-d arrays of rank 0-3 incl. empty ones, structs/tuples of 8-9 fields to cross the '
-            'missing-byte boundary, arrays of 7/8/9/17 elements); lines = bytes written (hex, must be equal), value read back, value the '
-            'model reads from the real bytes; non-trivial = a compound type with at least 3 values; distinct by full case')
+            'missing-byte boundary, arrays of 7/8/9/17 elements); lines = bytes written (hex, must be equal), value read back; '
+            'non-trivial = a compound type with at least 3 values; distinct by full case')
     trusted = ['harness/extract/scala_etype.py (case-table extraction from EType.scala, every case checked against a small grammar)',
                'the conventions of the engine\'s EType readers as stated in the oracle\'s table-driven decoder (EngineDecoder)',
                'numpy 2.x nditer(order="F") / ndarray(order="F"), struct.pack/unpack',
@@ -367,7 +366,10 @@ class C33(Prop):
 
     def cases(self, rng, n, tier):
         for _ in range(n):
-            t = hv.gen_type(rng, rng.choice([1, 2, 2, 3, 3, 3, 4, 4]))
+            if rng.random() < 0.15:      # numeric matrices / tensors at the top: the layout question of the property
+                t = ['ndarray', [rng.choice(hv.NUMERIC)], rng.choice([2, 2, 3])]
+            else:
+                t = hv.gen_type(rng, rng.choice([1, 2, 2, 3, 3, 3, 4, 4]))
             v = hv.gen_value(rng, t, allow_missing=False)
             yield {'type': t, 'value': v}
 
@@ -417,21 +419,23 @@ class C33(Prop):
         t = c['type']
         x, v, real = self.real(c)
         s = ' '.join(hv.ty_tokens(t)) + ' | ' + ' '.join(hv.val_tokens(t, v))
-        return ['enc ' + s, 'rt ' + s, 'dec ' + ' '.join(hv.ty_tokens(t)) + ' | ' + (real.hex() if real else '-')]
+        # (the model is never asked to read bytes it did not write: on foreign bytes a garbage dimension of an array of
+        # zero-width elements would make it — like the real decoder — loop for 2^60 steps; when the `enc` lines agree the bytes
+        # ARE the model's, so `rt` already is the model's reading of the real bytes)
+        return ['enc ' + s, 'rt ' + s]
 
     def impl(self, c):
         t = c['type']
         x, v, b = self.real(c)
         ht = self.H.build_type(t)
         if b is None:
-            return ['err', 'err', 'err']
+            return ['err', 'err']
         out = [b.hex() if b else '-']
         try:
             back = self.H.canon_py(t, ht._from_encoding(b))
         except Exception:
             back = 'err'
         out.append(back)
-        out.append(back + ' 0' if back != 'err' else 'err')
         return out
 
     def failure(self, t, v):
